@@ -161,11 +161,10 @@ theorem lookup_emplace_absent {α : Type} {n x : Nat} {v : α} {l : List (Nat ×
       simp only [emplace]
       split
       · simp only [lookup]
-      · simp only [hnm, if_false, lookup]
+      · simp only [lookup]
         rw [ih h]
         by_cases hxm : x = m
-        · have : x ≠ n := by rw [hxm]; exact fun hh => hnm hh.symm
-          simp [hxm, this]
+        · simp [hxm]
           intro hh; exact absurd hh.symm hnm
         · simp [hxm]
 
@@ -179,7 +178,7 @@ theorem erase_sublist {α : Type} (n : Nat) (l : List (Nat × α)) : (erase n l)
     simp only [erase]
     split
     · exact List.sublist_cons_self _ _
-    · exact List.Sublist.cons₂ _ ih
+    · exact List.Sublist.cons_cons _ ih
 
 theorem mem_of_mem_erase {α : Type} {n : Nat} {l : List (Nat × α)} {e : Nat × α} (h : e ∈ erase n l) : e ∈ l :=
   (erase_sublist n l).subset h
@@ -204,8 +203,7 @@ theorem lookup_erase {α : Type} {n x : Nat} {l : List (Nat × α)} (hs : Sorted
       simp only [lookup]
       rw [ih hr]
       by_cases hxm : x = m
-      · have : x ≠ n := by rw [hxm]; exact fun hh => hnm hh.symm
-        simp [hxm, this]
+      · simp [hxm]
         intro hh; exact absurd hh.symm hnm
       · simp [hxm]
 
@@ -309,8 +307,7 @@ theorem lookup_pushTag {n x : Nat} {ty : Ty} {l : List (Nat × List Ty)} (hs : S
         simp only [lookup, hnm, if_false]
         rw [ih hr]
         by_cases hxm : x = m
-        · have : x ≠ n := by rw [hxm]; exact fun hh => hnm hh.symm
-          simp [hxm, this]
+        · simp [hxm]
           intro hh; exact absurd hh.symm hnm
         · simp [hxm]
 
@@ -488,7 +485,7 @@ theorem apply_threw_unchanged {m : Maps} {op : Op} (h : (apply m op).2 = .threw)
   case fpt p ty => rfl
 
 /-- every object in the new object map was in the old one or is the call's own argument -/
-theorem apply_objs_ids {m : Maps} (hw : WF m) {op : Op} {e : Name × ObjId} (h : e ∈ (apply m op).1.objs) :
+theorem apply_objs_ids {m : Maps} {op : Op} {e : Name × ObjId} (h : e ∈ (apply m op).1.objs) :
     (∃ e' ∈ m.objs, e'.2 = e.2) ∨ op.newId = some e.2 := by
   have keep : e ∈ m.objs → (∃ e' ∈ m.objs, e'.2 = e.2) ∨ op.newId = some e.2 := fun h => Or.inl ⟨e, h, rfl⟩
   cases op with
